@@ -42,6 +42,78 @@ def make_inputs(rng, w=None, nq=None, nt=None):
     return ref, queries, targets
 
 
+def crowded_case(rng):
+    """Options first (total capacity S), then supplies: at least one bin at/over S, at least one with 2..S-1."""
+    o = crowded_opts(rng, 1)
+    S = o["sizetotal"] or sum(o[k] for k in ("sizeup", "sizedown", "sizeside", "sizesame"))
+    bins = ["up", "down", "side", "same"]
+    rng.shuffle(bins)
+    sup = {b: rng.choice([0, 1, 2, 3]) for b in bins}
+    sup[bins[0]] = S + rng.randint(0, 3)
+    sup[bins[1]] = rng.randint(2, max(2, S - 1))
+    if rng.random() < 0.5:
+        sup[bins[2]] = rng.randint(2, max(2, S - 1))
+    ref, qs, ts = make_inputs_crowded(rng, sup)
+    return ref, qs, ts, o
+
+
+def make_inputs_crowded(rng, supplies=None):
+    """Targets built bin by bin around one query, with chosen supplies per bin (some bins over the requested capacity,
+    others under it and in unsorted file order), so the cross-bin clauses of the size options are exercised."""
+    w = rng.choice([16, 24, 40])
+    ref = gen.rand_seq(rng, w)
+    cols = list(range(w))
+    rng.shuffle(cols)
+    k = rng.randint(2, 4)
+    qcols, free = cols[:k], cols[k:]
+    def put(s, cs):
+        s = list(s)
+        for c in cs:
+            s[c] = rng.choice([x for x in ACGT if x != ref[c]])
+        return "".join(s)
+    q = put(ref, qcols)
+    def with_q(sub, extra):
+        s = list(ref)
+        for c in sub:
+            s[c] = q[c]
+        s = "".join(s)
+        return put(s, rng.sample(free, extra))
+    mk = {"up": lambda: with_q(rng.sample(qcols, rng.randint(0, k - 1)), 0),
+          "down": lambda: with_q(qcols, rng.randint(1, min(5, len(free)))),
+          "side": lambda: with_q(rng.sample(qcols, rng.randint(0, k - 1)), rng.randint(1, min(5, len(free)))),
+          "same": lambda: with_q(qcols, 0)}
+    targets = []
+    for b in ("up", "down", "side", "same"):
+        for _ in range(supplies[b] if supplies else rng.choice([0, 1, 2, 3, 5, 8])):
+            t = mk[b]()
+            if rng.random() < 0.25:
+                t = list(t)
+                j = rng.choice(free)
+                t[j] = rng.choice("N-RY")
+                t = "".join(t)
+            targets.append(t)
+    if not targets:
+        targets = [mk["down"]()]
+    rng.shuffle(targets)
+    targets = [("t%d" % i, t) for i, t in enumerate(targets)]
+    return ref, [("q0", q)], targets
+
+
+def crowded_opts(rng, nt):
+    o = random_opts(rng, nt)
+    for k in ("sizetotal", "sizeup", "sizedown", "sizeside", "sizesame", "distall", "distup", "distdown", "distside", "distpush"):
+        o[k] = 0
+    o["threshpair"], o["threshtarg"] = 1.0, 10000
+    if rng.random() < 0.4:
+        o["sizetotal"] = rng.randint(2, 8)
+    else:
+        for k in ("sizeup", "sizedown", "sizeside", "sizesame"):
+            o[k] = rng.choice([0, 1, 1, 2, 3])
+        if all(o[k] == 0 for k in ("sizeup", "sizedown", "sizeside", "sizesame")):
+            o["sizeside"] = 1
+    return o
+
+
 def random_opts(rng, nt):
     o = {"table": rng.random() < 0.6, "ignore": [], "sizetotal": 0, "sizeup": 0, "sizedown": 0, "sizeside": 0, "sizesame": 0,
          "distall": 0, "distup": 0, "distdown": 0, "distside": 0, "threshpair": rng.choice([0.1, 0.1, 0.25, 0.5, 1.0, 0.0]),
